@@ -9,6 +9,13 @@ func init() {
 		Rules:       []string{"C02/attach", "C02/canattach", "C02/fresh", "C02/top"},
 	}, ruleC02Attach)
 	register(PropertyMeta{
+		ID:          "C09",
+		Level:       "other",
+		Explanation: "Decided on parser/lex.go: (backup) typestate of the scanner's one-rune back-up - every prev() call, on every abstract path of the fact engine, follows a next() on the same scanner whose ok result is known true, with no other scanner method in between; (spans) every Token literal and errorToken call has span newSpan(start, s.pos|saved s.pos) or indexSpan(start) with start = s.pos saved as the first statement of the function or of the scan loop; (tables) Scan's dispatch read with path facts: each one-character token has no look-ahead, each two-character family (= ! < > /) yields the documented kind for the documented second character and otherwise gives the look-ahead back, every documented token is produced; (classes) first-character classes of the sub-scanners and isAlpha/isDigit/isHexDigit evaluated symbolically on U+0000..U+024F; (keywords) keyword table. Not decided: kinds and values of arbitrary lexemes, number normalisation, re-scan idempotence, accessor agreement.",
+		Assumptions: commonAssumptions,
+		Rules:       []string{"C09/backup", "C09/spans", "C09/tables", "C09/classes", "C09/keywords"},
+	}, ruleC09Backup, ruleC09Spans)
+	register(PropertyMeta{
 		ID:          "C11",
 		Level:       "other",
 		Explanation: "parser.Walk is read as a table (case type -> visitor call, pushed child fields, guards). Decided: (handled) every dynamic type that can reach the worklist - roots of type Statement/Expr and every pushed field, interface-typed fields expanded to all module implementers - has a case, so the panicking default is dead; (complete) every node-bearing field of every case type is pushed exactly once (slices: in a loop over all indices; element types without a case: their node fields instead), two documented exceptions; (nil) optional fields (derived from explicit nil stores in the parser plus reviewed rows) are pushed only under a nil guard; (once) one visitor call per case with the case's node, all pushes gated on its result, one pop per iteration, root pushed once; (use) the compiler's visitor always returns true. Not decided: acyclicity/finite size of trees (assumed from the parser building fresh nodes), behaviour for trees built by hand.",
